@@ -1606,6 +1606,10 @@ impl Engine for VaultEngine {
             // coins of ANOTHER denom that would complete the announced amount: they must not count
             let t: Vec<&str> = line.split_whitespace().collect();
             let amount: u128 = t[2].parse().unwrap_or(0);
+            if amount > 1 && rng.chance(1, 3) {
+                // … or ARE the announced amount: the whole deposit paid in the other denom, nothing of the asset
+                return Some(format!("deposit {} {amount} 0 +1:{amount}", t[1]));
+            }
             if amount > 1 {
                 let part = amt.min(amount - 1).max(1);
                 return Some(format!("deposit {} {amount} {} +1:{part}", t[1], amount - part));
